@@ -105,8 +105,10 @@ VARIABLES ch, ah, dmem, xmem, log, irq, ticks, phase
 vars == <<ch, ah, dmem, xmem, log, irq, ticks, phase>>
 
 \* every cell starts with its own tag, so a moved value identifies where it came from
-InitD == [a \in WideSet |-> (37 * WToInt(a) + 11) % WB]
-InitX == [a \in WideSet |-> (7 * WToInt(a) + 3) % BB]
+\* (model checking only: B*B fits an integer, memories are indexed by WToInt(address))
+Cells == 0..(B * B - 1)
+InitD == [n \in Cells |-> (37 * n + 11) % WB]
+InitX == [n \in Cells |-> (7 * n + 3) % BB]
 
 NewChan(sz, st, md, bs) ==
     [sa |-> bs[1], da |-> bs[2], z0 |-> sz[1], z1 |-> sz[2], z2 |-> sz[3], ss |-> st[1], ds |-> st[2],
@@ -121,22 +123,22 @@ Init == /\ \E sz \in SizeSet \X SizeSet \X SizeSet, st \in StepPairs, md \in Mod
         /\ (ch.sp # 7 /\ ch.dp # 7) => (ah[0].u = 0 /\ ah[0].bu = 0)      \* AHBM settings are irrelevant then
         /\ dmem = InitD /\ xmem = InitX /\ log = <<>> /\ irq = 0 /\ ticks = 0 /\ phase = "idle"
 
-XAt(m, a, k) == m[AddK(a, k)]
+XAt(m, a, k) == m[WToInt(AddK(a, k))]
 ReadVal(req) ==
     LET k == req[1]  a == req[2] IN
-    IF k = KDspR THEN W16(dmem[a])
-    ELSE IF k = KR8  THEN W16(xmem[a])
-    ELSE IF k = KR16 THEN W16(xmem[a] + BB * XAt(xmem, a, 1))
-    ELSE IF k = KR32 THEN <<XAt(xmem, a, 2) + BB * XAt(xmem, a, 3), xmem[a] + BB * XAt(xmem, a, 1)>>
+    IF k = KDspR THEN W16(dmem[WToInt(a)])
+    ELSE IF k = KR8  THEN W16(XAt(xmem, a, 0))
+    ELSE IF k = KR16 THEN W16(XAt(xmem, a, 0) + BB * XAt(xmem, a, 1))
+    ELSE IF k = KR32 THEN <<XAt(xmem, a, 2) + BB * XAt(xmem, a, 3), XAt(xmem, a, 0) + BB * XAt(xmem, a, 1)>>
     ELSE WZero
 
-ApplyD(m, e) == IF e[1] = KDspW THEN [m EXCEPT ![e[2]] = e[3][2]] ELSE m
+ApplyD(m, e) == IF e[1] = KDspW THEN [m EXCEPT ![WToInt(e[2])] = e[3][2]] ELSE m
 ApplyX(m, e) ==
-    LET a == e[2]  v == e[3] IN
-    IF e[1] = KW8 THEN [m EXCEPT ![a] = v[2]]
-    ELSE IF e[1] = KW16 THEN [m EXCEPT ![a] = Byte0(v), ![AddK(a, 1)] = Byte1(v)]
-    ELSE IF e[1] = KW32 THEN [m EXCEPT ![a] = Byte0(v), ![AddK(a, 1)] = Byte1(v),
-                                       ![AddK(a, 2)] = Byte2(v), ![AddK(a, 3)] = Byte3(v)]
+    LET a == e[2]  v == e[3]  I(k) == WToInt(AddK(a, k)) IN
+    IF e[1] = KW8 THEN [m EXCEPT ![I(0)] = v[2]]
+    ELSE IF e[1] = KW16 THEN [m EXCEPT ![I(0)] = Byte0(v), ![I(1)] = Byte1(v)]
+    ELSE IF e[1] = KW32 THEN [m EXCEPT ![I(0)] = Byte0(v), ![I(1)] = Byte1(v),
+                                       ![I(2)] = Byte2(v), ![I(3)] = Byte3(v)]
     ELSE m
 RECURSIVE ApplyAllD(_, _, _)
 ApplyAllD(m, ev, i) == IF i > Len(ev) THEN m ELSE ApplyAllD(ApplyD(m, ev[i]), ev, i + 1)
@@ -256,14 +258,14 @@ Natural(c, a) == /\ c.sp \in {0, 7} /\ c.dp \in {0, 7}
 \* ---- what the memories must hold: elements copied one after the other in element order
 ElemVal(m, c, k) ==
     LET s == SrcAt(c, k) IN
-    IF c.sp = 0 THEN (IF c.dw # 0 THEN <<m.d[OrOne(s)], m.d[Align2(s)]>> ELSE W16(m.d[s]))
-    ELSE IF c.dw # 0 THEN <<XAt(m.x, s, 2) + BB * XAt(m.x, s, 3), m.x[s] + BB * XAt(m.x, s, 1)>>
-    ELSE W16(m.x[s] + BB * XAt(m.x, s, 1))
+    IF c.sp = 0 THEN (IF c.dw # 0 THEN <<m.d[WToInt(OrOne(s))], m.d[WToInt(Align2(s))]>> ELSE W16(m.d[WToInt(s)]))
+    ELSE IF c.dw # 0 THEN <<XAt(m.x, s, 2) + BB * XAt(m.x, s, 3), XAt(m.x, s, 0) + BB * XAt(m.x, s, 1)>>
+    ELSE W16(XAt(m.x, s, 0) + BB * XAt(m.x, s, 1))
 StoreElem(m, c, k, v) ==
     LET t == DstAt(c, k) IN
     IF c.dp = 0 THEN
-        (IF c.dw # 0 THEN [m EXCEPT !.d = [[@ EXCEPT ![Align2(t)] = v[2]] EXCEPT ![OrOne(t)] = v[1]]]
-         ELSE [m EXCEPT !.d[t] = v[2]])
+        (IF c.dw # 0 THEN [m EXCEPT !.d = [[@ EXCEPT ![WToInt(Align2(t))] = v[2]] EXCEPT ![WToInt(OrOne(t))] = v[1]]]
+         ELSE [m EXCEPT !.d[WToInt(t)] = v[2]])
     ELSE IF c.dw # 0 THEN [m EXCEPT !.x = ApplyX(@, <<KW32, t, v>>)]
     ELSE [m EXCEPT !.x = ApplyX(@, <<KW16, t, v>>)]
 RECURSIVE CopyFirst(_, _)       \* memories after the first k elements
@@ -271,21 +273,22 @@ CopyFirst(c, k) == IF k = 0 THEN [d |-> InitD, x |-> InitX]
                    ELSE LET m == CopyFirst(c, k - 1) IN StoreElem(m, c, k - 1, ElemVal(m, c, k - 1))
 
 \* "copies ... from source to destination ..., changes no other memory; overlapping source and
-\* destination ranges" follow element order: after the transfer (and, without bursts, after every
-\* element) both memories are exactly the result of copying the closed-form elements one by one
+\* destination ranges": after the transfer both memories are exactly the result of copying the
+\* closed-form elements one by one in element order (ElementOrder/AccessesClosedForm below say the
+\* same about the individual accesses while the transfer runs)
 DataCopied ==
-    Natural(ch, ah[ch.ach]) =>
-        /\ phase = "done" => [d |-> dmem, x |-> xmem] = CopyFirst(ch, Count(ch))
-        /\ (phase = "run" /\ Burst(ah[ch.ach]) = 1) => [d |-> dmem, x |-> xmem] = CopyFirst(ch, ticks)
+    (phase = "done" /\ Natural(ch, ah[ch.ach])) => [d |-> dmem, x |-> xmem] = CopyFirst(ch, Count(ch))
 
 \* the cells a transfer may change at all: the destination elements
 DstCells(c) ==
     UNION { IF c.dw # 0 THEN {Align2(DstAt(c, k)), OrOne(DstAt(c, k))} ELSE {DstAt(c, k)} : k \in 0..Count(c)-1 }
 DstBytes(c) == UNION { {AddK(DstAt(c, k), j) : j \in 0..UnitB(c)-1} : k \in 0..Count(c)-1 }
 FootprintOnlyDst ==
-    Natural(ch, ah[ch.ach]) =>
-        /\ \A a \in WideSet : dmem[a] # InitD[a] => (ch.dp = 0 /\ a \in DstCells(ch))
-        /\ \A a \in WideSet : xmem[a] # InitX[a] => (ch.dp = 7 /\ a \in DstBytes(ch))
+    (phase = "done" /\ Natural(ch, ah[ch.ach])) =>
+        LET dc == IF ch.dp = 0 THEN DstCells(ch) ELSE {}
+            db == IF ch.dp = 7 THEN DstBytes(ch) ELSE {}
+        IN  /\ \A a \in WideSet : dmem[WToInt(a)] # InitD[WToInt(a)] => a \in dc
+            /\ \A a \in WideSet : xmem[WToInt(a)] # InitX[WToInt(a)] => a \in db
 
 \* ---- what the accesses must be: the ordered event log against the closed form
 RdLog == SelectSeq(log, LAMBDA e : IsReadKind(e[1]))
@@ -301,18 +304,20 @@ ExpWrites(c, k, v) ==
     ELSE << <<IF c.dw # 0 THEN KW32 ELSE KW16, t, v>> >>
 RPer(c) == IF c.sp = 0 /\ c.dw # 0 THEN 2 ELSE 1
 WPer(c) == IF c.dp = 0 /\ c.dw # 0 THEN 2 ELSE 1
-ValRead(c, k) ==       \* the element value as assembled from the logged reads of element k
-    IF RPer(c) = 2 THEN <<RdLog[2 * k + 2][3][2], RdLog[2 * k + 1][3][2]>> ELSE RdLog[k + 1][3]
+ValRead(c, rd, k) ==   \* the element value as assembled from the logged reads rd of element k
+    IF RPer(c) = 2 THEN <<rd[2 * k + 2][3][2], rd[2 * k + 1][3][2]>> ELSE rd[k + 1][3]
 
 \* at completion: the reads are exactly the source elements and the writes exactly the destination
 \* elements, each once, in element order, every write carrying the value read for that element;
 \* "each external access moves exactly those bytes at exactly that address"
 AccessesClosedForm ==
     (phase = "done" /\ Natural(ch, ah[ch.ach])) =>
-        /\ Len(RdLog) = RPer(ch) * Count(ch) /\ Len(WrLog) = WPer(ch) * Count(ch)
-        /\ \A k \in 0..Count(ch)-1 :
-              /\ \A j \in 1..RPer(ch) : LET e == RdLog[RPer(ch) * k + j] IN <<e[1], e[2]>> = ExpReads(ch, k)[j]
-              /\ \A j \in 1..WPer(ch) : WrLog[WPer(ch) * k + j] = ExpWrites(ch, k, ValRead(ch, k))[j]
+        LET rd == RdLog  wr == WrLog  rp == RPer(ch)  wp == WPer(ch)  n == Count(ch) IN
+        /\ Len(rd) = rp * n /\ Len(wr) = wp * n
+        /\ \A k \in 0..n-1 :
+              LET er == ExpReads(ch, k)  ew == ExpWrites(ch, k, ValRead(ch, rd, k)) IN
+              /\ \A j \in 1..rp : LET e == rd[rp * k + j] IN <<e[1], e[2]>> = er[j]
+              /\ \A j \in 1..wp : wr[wp * k + j] = ew[j]
 
 \* without bursts the accesses of element k all come before those of element k+1, reads first:
 \* this is what "overlapping source and destination ranges" follow
